@@ -21,7 +21,7 @@ not (byte-identity = the same value comes back).  The specification is `accepts`
 sequential callers (concurrency is C05).  Operations that the engine rejects (too many entries,
 over the byte limit, topic name too long for the header, empty batch) are inside the quantifier;
 the only operations outside it are appends of a single entry larger than `MAX_ALLOC` (1 GiB),
-where the code seals the active block before failing (open finding `sealThenAllocFail`).
+where the code seals the active block before failing (finding `sealThenAllocFail`, repaired since: such an entry is now rejected before any state changes).
 -/
 namespace WalrusVerif.Props.C01
 open WalrusVerif WalrusVerif.Eng WalrusVerif.AEng
